@@ -85,10 +85,12 @@ static int same(DString *d, ref *r, char *why) {
 #define MAXDEPTH 5
 typedef struct { opx h[MAXDEPTH]; unsigned char n, start; } hist;
 static uint64_t fnv(const void *p, size_t n, uint64_t h) { const unsigned char *s = p; while (n--) { h ^= *s++; h *= 1099511628211ULL; } return h; }
-static const char *STARTS[] = { "", "foo", "ababab" };
+#define NSTART 10
+static const char *STARTS[NSTART] = { "", "foo", "ababab" };   /* + d_string_new() on 1022..4096-byte strings, filled in main */
+static const char *START_NAMES[NSTART] = { "\"\"", "\"foo\"", "\"ababab\"", "new(1022 bytes)", "new(1023 bytes)", "new(1024 bytes)", "new(1025 bytes)", "new(2048 bytes)", "new(2049 bytes)", "new(4096 bytes)" };
 
 static void print_hist(FILE *o, const hist *h, const opx *last) {
-	fprintf(o, "\"start\":\"%s\",\"history\":[", STARTS[h->start]);
+	fprintf(o, "\"start\":%s%s%s,\"history\":[", h->start < 3 ? "" : "\"", START_NAMES[h->start], h->start < 3 ? "" : "\"");
 	for (int i = 0; i < h->n + (last ? 1 : 0); i++) { const opx *x = i < h->n ? &h->h[i] : last; fprintf(o, "%s\"%s(payload=%lu bytes,pos=%s,len=%s)\"", i ? "," : "", opn[x->op], (unsigned long) PL[x->pi], kindname[x->posk], kindname[x->lenk]); }
 	fprintf(o, "]");
 }
@@ -103,12 +105,17 @@ static int usepos(int op) { return op == INSERT || op == INSERT_C || op == INSER
 static int uselen(int op) { return op == APPEND_ARR || op == INSERT_ARR || op == ERASE || op == COPYSUB || op == REPLACE; }
 static int usepay(int op) { return op == APPEND || op == APPEND_C || op == APPEND_ARR || op == APPEND_PF || op == PREPEND || op == INSERT || op == INSERT_ARR || op == REPLACE; }
 
-static int bfs(int maxd, double deadline_s) {
+static int bfs(int maxd, double deadline_s, int only_start) {
 	struct timespec t0; clock_gettime(CLOCK_MONOTONIC, &t0);
 	hcap = 1 << 24; hset = calloc(hcap, 8);
 	size_t qcap = 1 << 20, nq = 0, head = 0; hist *Q = malloc(sizeof(hist) * qcap);
 	long trans = 0, bad = 0, unj = 0, states = 0; int reached = 0, complete = 1; long per_depth[MAXDEPTH + 1] = { 0 };
-	for (int st = 0; st < 3; st++) { Q[nq].n = 0; Q[nq].start = st; nq++; states++; }
+	{ Q[nq].n = 0; Q[nq].start = only_start; nq++; states++;
+	  /* the start state itself must satisfy the invariants (d_string_new is an operation of the alphabet) */
+	  DString *d0 = d_string_new(STARTS[only_start]); ref r0 = { strdup(STARTS[only_start]), strlen(STARTS[only_start]) }; char w0[160] = "";
+	  PR->h = Q[0]; PR->h.n = 0; PR->active = 1;
+	  if (!same(d0, &r0, w0)) { printf("{\"t\":\"viol\",\"sig\":\"dstring:new:%s\",\"detail\":\"d_string_new: %s\",", strstr(w0, "capacity") ? "capacity" : "result", w0); print_hist(stdout, &Q[0], NULL); printf("}\n"); }
+	  d_string_free(d0, true); free(r0.b); }
 	while (head < nq) {
 		hist h = Q[head++];
 		if (h.n >= maxd) continue;
@@ -146,7 +153,7 @@ static int bfs(int maxd, double deadline_s) {
 	printf("{\"t\":\"bfs\",\"maxdepth\":%d,\"states\":%ld,\"transitions\":%ld,\"unjudged\":%ld,\"violations\":%ld,\"complete\":%s,\"reached_depth\":%d,\"states_by_depth\":[%ld,%ld,%ld,%ld,%ld]}\n",
 	       maxd, states, trans, unj, bad, complete ? "true" : "false", reached, per_depth[1], per_depth[2], per_depth[3], per_depth[4], per_depth[5]);
 	/* samples */
-	for (int s = 0; s < 5 && nq > 3; s++) { size_t i = 3 + (nq - 4) * s / 4; printf("{\"t\":\"sample\","); print_hist(stdout, &Q[i], NULL); printf("}\n"); }
+	for (int s = 0; s < 2 && nq > 3; s++) { size_t i = 1 + (nq - 2) * s / 2; printf("{\"t\":\"sample\","); print_hist(stdout, &Q[i], NULL); printf("}\n"); }
 	return 0;
 }
 const char *__asan_default_options(void) { return "detect_leaks=0:allocator_may_return_null=1"; }
@@ -158,14 +165,23 @@ int main(int argc, char **argv) {
 	size_t lens[NP] = { 0, 1, 3, 1022, 1023, 1024, 1025, 2049, 3 };
 	for (int i = 0; i < NP; i++) { PAY[i] = malloc(lens[i] + 1); for (size_t j = 0; j < lens[i]; j++) PAY[i][j] = "abxab"[j % 5]; PAY[i][lens[i]] = 0; PL[i] = lens[i]; }
 	PAY[NP - 1][1] = 0;     /* "a\0x" with explicit length 3 */
-	PR = mmap(NULL, sizeof *PR, PROT_READ | PROT_WRITE, MAP_SHARED | MAP_ANONYMOUS, -1, 0);
+	static char *longs[NSTART]; size_t ll[NSTART] = { 0, 0, 0, 1022, 1023, 1024, 1025, 2048, 2049, 4096 };
+	for (int k = 3; k < NSTART; k++) { longs[k] = malloc(ll[k] + 1); for (size_t q = 0; q < ll[k]; q++) longs[k][q] = "abxab"[q % 5]; longs[k][ll[k]] = 0; STARTS[k] = longs[k]; }
+	progress *PRS = mmap(NULL, sizeof(progress) * NSTART, PROT_READ | PROT_WRITE, MAP_SHARED | MAP_ANONYMOUS, -1, 0);
+	pid_t pids[NSTART]; char outf[NSTART][64];
 	fflush(stdout);
-	pid_t p = fork();
-	if (p == 0) { int rc = bfs(maxd, deadline); fflush(stdout); _exit(rc); }
-	int st; waitpid(p, &st, 0);
-	if (WIFEXITED(st) && (WEXITSTATUS(st) == 0 || WEXITSTATUS(st) == 3)) return WEXITSTATUS(st);
-	/* the search died: report the history that was executing */
-	printf("{\"t\":\"crash\",\"how\":\"%s %d\",", WIFSIGNALED(st) ? "signal" : "exit", WIFSIGNALED(st) ? WTERMSIG(st) : WEXITSTATUS(st));
-	print_hist(stdout, &PR->h, &PR->last); printf(",\"op\":\"%s\"}\n", opn[PR->last.op]);
-	return 0;
+	for (int k = 0; k < NSTART; k++) {
+		snprintf(outf[k], sizeof outf[k], "/dev/shm/vp-c19-%d-%d.out", (int)getpid(), k);
+		pids[k] = fork();
+		if (pids[k] == 0) { PR = &PRS[k]; if (!freopen(outf[k], "w", stdout)) _exit(3); int rc = bfs(maxd, deadline, k); fflush(stdout); _exit(rc); }
+	}
+	int worst = 0;
+	for (int k = 0; k < NSTART; k++) {
+		int st; waitpid(pids[k], &st, 0);
+		FILE *f = fopen(outf[k], "r"); char buf[8192]; size_t n; if (f) { while ((n = fread(buf, 1, sizeof buf, f)) > 0) fwrite(buf, 1, n, stdout); fclose(f); unlink(outf[k]); }
+		if (WIFEXITED(st) && (WEXITSTATUS(st) == 0 || WEXITSTATUS(st) == 3)) { if (WEXITSTATUS(st) > worst) worst = WEXITSTATUS(st); continue; }
+		printf("{\"t\":\"crash\",\"how\":\"%s %d\",", WIFSIGNALED(st) ? "signal" : "exit", WIFSIGNALED(st) ? WTERMSIG(st) : WEXITSTATUS(st));
+		print_hist(stdout, &PRS[k].h, PRS[k].h.n || PRS[k].last.op ? &PRS[k].last : NULL); printf(",\"op\":\"%s\"}\n", opn[PRS[k].last.op]);
+	}
+	return worst;
 }
